@@ -165,9 +165,9 @@ def c18(tier, seed):
 CHECKS = {"C01": c01, "C02": c02, "C03": c03, "C04": c04, "C07": c07, "C15": c15, "C16": c16, "C17": c17, "C18": c18}
 
 
-def _split(prop, tier, seed, flavour, monitor, extra, workers=W, timeout=1500, level="exploration"):
+def _split(prop, tier, seed, flavour, monitor, extra, workers=W, timeout=1500, level="exploration", virtual=None):
     exe = ensure_monitor(flavour, monitor)
-    argvs = [[exe, "--worker", str(i), "--workers", str(workers), "--seed", str(s)] + extra
+    argvs = [[exe, "--worker", str(i), "--workers", str(virtual or workers), "--seed", str(s)] + extra
              for i, s in enumerate(_seeds(seed, workers))]
     c = Check(prop, tier, seed, level)
     for w in run_workers(argvs, timeout):
@@ -210,8 +210,9 @@ def c20(tier, seed):
     q = tier == "quick"
     args = ["--randoms", str(60000 if q else 3000000), "--sweeps", str(600 if q else 40000)]
     c = _split("C20", tier, seed, "rel", "time_monitor", args)
+    # the UBSan build walks a third of the grid in the quick tier (48 virtual workers, 16 run)
     _merge(c, _split("C20", tier, seed + 500, "asan", "time_monitor", ["--randoms", str(20000 if q else 300000), "--sweeps",
-                                                                       str(200 if q else 4000)]))
+                                                                       str(200 if q else 4000)], workers=W, virtual=(3 * W if q else W)))
     # under UBSan an overflow / float-cast report IS the 'overflow or sign slip' of this property
     for k in list(c.counters):
         if k.startswith("sanitizer:ubsan:") and k.split(":")[2] in ("signed-overflow", "float-cast", "shift", "div-zero"):
@@ -219,7 +220,7 @@ def c20(tier, seed):
     c.rule = ("grid over remaining time x increment x movestogo x ply x colour, random tuples, and monotone sweeps (200 increasing clock "
               "values per (inc, movestogo, ply)); run in the -Ofast build users run and in the UBSan build; non-trivial = distinct random tuples")
     c.assumptions = ["domain: time 0..24h ms, increment 0..10min, movestogo 0..200, ply 0..1000 (the property's quantifier)"]
-    c.require("grid-points", 1000000)
+    c.require("grid-points", 4000000)
     c.require("monotone-steps", 50000)
     return c.finish()
 
@@ -328,7 +329,7 @@ SEARCH_ASSUME = ["oracle/ legal-move generator decides legality of bestmove and 
 
 def c05(tier, seed):
     q = tier == "quick"
-    c = _search("C05", tier, seed, "asan", 220 if q else 4000, 5 if q else 6)
+    c = _search("C05", tier, seed, "asan", 140 if q else 4000, 5 if q else 6)
     if not q:
         _merge(c, _search("C05", tier, seed + 500, "rel", 12000, 6))
     c.level = "fault_enumeration"
@@ -363,7 +364,7 @@ def c08(tier, seed):
 
 def c09(tier, seed):
     q = tier == "quick"
-    c = _search("C09", tier, seed, "asan", 120 if q else 2500, 5 if q else 6, extra=lambda i: ["--deep"] if i < 2 else [])
+    c = _search("C09", tier, seed, "asan", 80 if q else 2500, 5 if q else 6, extra=lambda i: ["--deep"] if i < 2 else [])
     if not q:
         _merge(c, _search("C09", tier, seed + 500, "rel", 8000, 7, extra=lambda i: ["--deep"] if i < 2 else []))
     c.rule = ("info-depth sequence 1..k<=d without gaps, bestmove in searchmoves (random subsets; subsets that exclude the move a deeper "
@@ -632,6 +633,23 @@ def setup():
 
 
 def replay(prop, path):
+    """Re-run the witness of a VIOLATION line. Position-level witnesses are replayed directly on the
+    monitor (asan and rel flavours); everything else re-runs the check at the recorded seed and tier."""
     j = json.load(open(path))
-    print(json.dumps(j, indent=1))
-    return 0
+    ex = j.get("example") or {}
+    print("replaying %s key=%s" % (path, j.get("key")))
+    api = {"C01", "C02", "C03", "C04", "C07", "C15", "C16", "C17", "C18"}
+    if prop in api and isinstance(ex, dict) and ex.get("fen"):
+        rc = 0
+        for fl in ("asan", "rel"):
+            exe = ensure_monitor(fl, "api_monitor")
+            w = core.run_one([exe, "--prop", prop, "--fen", ex["fen"], "--games", "0", "--synth", "0"], 300)
+            keys = [v["key"] for v in (w.json or {}).get("violations", [])]
+            print("  flavour=%s rc=%s violation keys=%s" % (fl, w.rc, keys))
+            if keys or w.rc != 0:
+                rc = 1
+        if rc:
+            print("VIOLATION property=%s replay=%s" % (prop, path))
+        return rc
+    os.environ["VERIF_SEED"] = str(j.get("seed", 1))
+    return CHECKS[prop](j.get("tier", "quick"), int(j.get("seed", 1)))
